@@ -96,7 +96,9 @@ let query (t : c12_tree) (k : c12_str) : string =
   Printf.sprintf "h%ss%sg%s" (ob (c12_has_key t p)) (ob (c12_has_sub t p))
     (match c12_get_default t p (explode "DFLT") with Some v -> "x" ^ hex v | None -> "E")
 
-let tree_of_predoc (f : string) : c12_tree = (c12_parse_ini (str_field f) c12_empty true).c12_ir_tree
+let tree_of_predoc_v (qh : bool) (f : string) : c12_tree = (c12_parse_ini qh (str_field f) c12_empty true).c12_ir_tree
+(* for readNamedOptions the pre-filled tree is written without quotes: both variants agree *)
+let tree_of_predoc (f : string) : c12_tree = tree_of_predoc_v false f
 
 let zlist l = "[" ^ String.concat "," (List.map string_of_z l) ^ "]"
 let exc = "EXC RangeError"
@@ -126,9 +128,8 @@ let get_case (ty : string) (v : c12_str) : string * string =
     okz (via_tree (c12_parse_scalar (c12_ity_extract it)) v), spec in
   let range it n =
     let (lo, hi) = ity_bounds it in
-    let asis = okl (via_tree (c12_parse_range false (c12_ity_extract it) (nat_of_int n)) v)
-    and fixd = okl (via_tree (c12_parse_range true (c12_ity_extract it) (nat_of_int n)) v) in
-    (if asis = fixd then asis else asis ^ " ~ " ^ fixd), verdict_l (c12_spec_range lo hi (nat_of_int n) v) in
+    okl (via_tree (c12_parse_range true (c12_ity_extract it) (nat_of_int n)) v),
+    verdict_l (c12_spec_range lo hi (nat_of_int n) v) in
   match ty with
   | "int" -> scalar C12Int | "long" -> scalar C12Long | "uint" -> scalar C12UInt | "ulong" -> scalar C12ULong
   | "bool" -> (match via_tree c12_parse_bool v with Some b -> "OK " ^ bits [b] | None -> exc),
@@ -162,10 +163,14 @@ let do_case (line : string) : string =
   match t.(0) with
   | "ini" ->
     let ow = t.(1) = "1" in
-    let pre = tree_of_predoc t.(2) in
-    let r = c12_parse_ini (str_field t.(3)) pre ow in
-    let qs = String.concat "," (List.map (query r.c12_ir_tree) (strs_field t.(4))) in
-    let m = Printf.sprintf "%s %s Q:%s" (status_str r.c12_ir_status) (dump r.c12_ir_tree) qs in
+    let pre = tree_of_predoc_v true t.(2) in
+    (* model observation for both variants of the comment search (as found / with fixes/C12-3.patch) *)
+    let obs qh =
+      let r = c12_parse_ini qh (str_field t.(3)) (tree_of_predoc_v qh t.(2)) ow in
+      let qs = String.concat "," (List.map (query r.c12_ir_tree) (strs_field t.(4))) in
+      Printf.sprintf "%s %s Q:%s" (status_str r.c12_ir_status) (dump r.c12_ir_tree) qs in
+    let r = c12_parse_ini true (str_field t.(3)) pre ow in
+    let m = let a = obs false and b = obs true in if a = b then a else a ^ " ~ " ^ b in
     let spec =
       if Array.length t >= 7 then begin
         let da = assigns_field t.(6) in
@@ -212,18 +217,8 @@ let do_case (line : string) : string =
     let args = strs_field t.(5) and pre = tree_of_predoc t.(6) in
     let (tr, st) = c12_read_named_options args pre kw (nat_of_int req) (t.(2) = "1") (t.(3) = "1") in
     let spec =
-      if t.(3) <> "1" then "?"
-      else if List.for_all c12_plain_arg args then
-        let (t2, s2) = c12_spec_named_positional args kw (nat_of_int req) pre in
-        Printf.sprintf "%s %s" (status_str s2) (dump t2)
-      else
-        let ps = List.map c12_named_pair args in
-        let rec distinct = function [] -> true | x :: r -> not (List.exists (fun y -> c12_eqs x y) r) && distinct r in
-        (* the documented mapping presupposes pairwise different keywords *)
-        if distinct kw && List.for_all (function Some (k, _) -> List.exists (fun x -> c12_eqs x k) kw | None -> false) ps then
-          let (t2, s2) = c12_spec_named_only (List.filter_map (fun x -> x) ps) kw (nat_of_int req) pre in
-          Printf.sprintf "%s %s" (status_str s2) (dump t2)
-        else "?" in
+      let (t2, s2) = c12_spec_read_named args pre kw (nat_of_int req) (t.(2) = "1") (t.(3) = "1") in
+      Printf.sprintf "%s %s" (status_str s2) (dump t2) in
     Printf.sprintf "%s %s | %s" (status_str st) (dump tr) spec
   | _ -> "UNKNOWN-OP | ?"
 
